@@ -103,6 +103,8 @@ struct Gate {
 
 // set around every timed wait of the calling thread; the functors look at it
 thread_local int t_in_timed_wait = 0;
+// set around every then() call: 1 = the antecedent was not ready just before the call, 2 = it was
+thread_local int t_in_then = 0;
 
 inline std::launch apol_of(long pol) { return (pol & 1) ? std::launch::async : dispenso::kNotAsync; }
 inline std::launch dpol_of(long pol) { return (pol & 2) ? std::launch::deferred : dispenso::kNotDeferred; }
@@ -396,6 +398,7 @@ struct ThenCtx {
   mc::Shared<int> ante_calls{0}, ante_finished{0};
   mc::Shared<int> ran[8];
   mc::Shared<int> done[8];
+  mc::Shared<int> runner[8];
   bool ante_throws = false;
   int ante() {
     int prev = ante_calls.add(1);
@@ -409,6 +412,12 @@ struct ThenCtx {
   int cont(int id, dispenso::Future<int>&& a) {
     int prev = ran[id].add(1);
     MC_CHECK(prev == 0, "continuation %d was invoked a second time", id);
+    runner[id].set(mc_self_id());
+    // where it runs: inside the registering then() call (found ready at once, or pushed its link and then
+    // drained the chain itself after the re-check), or on whoever completed the antecedent / a pool thread
+    if (t_in_then == 1) mc::cover("then_inline_late_ready");
+    if (t_in_then == 2) mc::cover("then_inline_ready_before");
+    if (t_in_then == 0) mc::cover("cont_not_in_then");
     MC_CHECK(a.valid(), "continuation %d received an invalid future", id);
     MC_CHECK(a.is_ready(), "continuation %d started while its antecedent is not ready", id);
     MC_CHECK(ante_finished.get() == 1, "continuation %d started before the antecedent's functor finished", id);
@@ -446,6 +455,10 @@ struct ThenEnv {
   long pol = 2;
   template <class F>
   dispenso::Future<int> then(dispenso::Future<int>& f, F&& fn) {
+    struct Mark {
+      Mark(int v) { t_in_then = v; }
+      ~Mark() { t_in_then = 0; }
+    } mark(status_of(f) == 2 ? 2 : 1);
     std::launch a = apol_of(pol), d = dpol_of(pol);
     if (tsched == "imm") return f.then(std::forward<F>(fn), dispenso::kImmediateInvoker, a, d);
     if (tsched == "pool") return f.then(std::forward<F>(fn), *pool, a, d);
@@ -577,6 +590,8 @@ void fthen_impl(const mc::Params& P) {
     }
     MC_CHECK(ante.impl_->thenChain_.a_.load(std::memory_order_relaxed) == nullptr, "then-chain not empty at quiescence");
     mc::observe("conts", total);
+    for (int k = 0; k < 8; k++)
+      if (c.ran[k].get()) mc::observe("cont_runner", k * 16 + c.runner[k].get());
     gate.finish();
     mc::join_all();
   }
@@ -769,7 +784,7 @@ void fwhen_run(const mc::Params& P, WhenCtx& c, Make make, Check check) {
     check(res, "T0 at quiescence");
     int rc = refs_of(res);
     if (rc != 1) {
-      mc::cover("result_state_refcount_off_at_quiescence");
+      mc::cover("result_refcount_off");
       mc::observe("refcount", rc);
       if (strict) MC_CHECK(false, "combinator result: reference count %d at quiescence with exactly one live handle (its state is never freed)", rc);
     }
@@ -931,7 +946,7 @@ bool timed_wait_event(const dispenso::CompletionEvent& ev, const std::string& ap
       MC_CHECK(t1 - t0 >= d, "waitFor(%lld ns) returned false after only %lld ns", (long long)d, (long long)(t1 - t0));
     else
       MC_CHECK(t1 + kEpochNs >= abs_ns, "waitUntil returned false %lld ns before the requested time point", (long long)(abs_ns - t1 - kEpochNs));
-    mc::cover(complete ? "ev_false_although_completed_by_then" : "ev_false");
+    mc::cover(complete ? "ev_false_but_completed_now" : "ev_false");
   }
   mc::observe("ret", r ? 1 : 0);
   return r;
@@ -1009,7 +1024,7 @@ void timed_wait_future(TimedCtx& c, const dispenso::Future<int>& f, const std::s
       MC_CHECK(t1 - t0 >= d, "wait_for(%lld ns) reported timeout after only %lld ns", (long long)d, (long long)(t1 - t0));
     else
       MC_CHECK(t1 + kEpochNs >= abs_ns, "wait_until reported timeout %lld ns before the requested time point", (long long)(abs_ns - t1 - kEpochNs));
-    mc::cover(ready_now ? "fut_timeout_although_ready_by_then" : "fut_timeout");
+    mc::cover(ready_now ? "fut_timeout_but_ready_now" : "fut_timeout");
   }
   if (!started_before && c.ran_in_timed.get() != 0) {
     // some timed wait ran the functor on its own thread
